@@ -439,7 +439,7 @@ func nonNilError(v ssa.Value, at *ssa.BasicBlock, depth int) bool {
 		} else {
 			continue
 		}
-		if other != v {
+		if other != v && !sameLoad(other, v) {
 			continue
 		}
 		// which successor are we in?
@@ -515,4 +515,12 @@ func descIs(d string) func(*CallSite) bool { return func(c *CallSite) bool { ret
 
 func fmtSite(P *Prog, c *CallSite) string {
 	return fmt.Sprintf("%s in %s (%s)", c.Desc(), FuncName(c.Fn), P.Pos(c.Pos()))
+}
+
+
+// sameLoad: both values are loads of the same address (e.g. a captured error variable tested and then returned).
+func sameLoad(a, b ssa.Value) bool {
+	la, ok1 := a.(*ssa.UnOp)
+	lb, ok2 := b.(*ssa.UnOp)
+	return ok1 && ok2 && la.Op == token.MUL && lb.Op == token.MUL && la.X == lb.X
 }
